@@ -233,6 +233,15 @@ def run(M, rep, tier, only=None):
         # within the prefix alternation itself a shorter alternative must not precede a longer one it prefixes
         bad = [(a, b) for i, a in enumerate(alts) for b in alts[i + 1:] if b != a and b.startswith(a)]
         rep.check(R2, "prefix-order", not bad, "in PREFIXES %s shadows a longer prefix" % bad, site=um.relpath)
+    units_re = fold_const(M, UNITS_MOD, "UNITS")
+    if not isinstance(units_re, str):
+        rep.bad(R2, "unit table", "required mechanism not found: UNITS literal")
+    else:
+        ualts = set(alternatives(units_re))
+        rep.check(R2, "unit symbols", ualts == set(T.SI_UNIT_SYMBOLS),
+                  "the unit alternation differs from the SI unit symbols: missing %s, unknown %s (a lost '|' joins two symbols into one "
+                  "that is no unit and drops both)" % (sorted(set(T.SI_UNIT_SYMBOLS) - ualts), sorted(ualts - set(T.SI_UNIT_SYMBOLS))),
+                  site=um.relpath)
 
     # ---------------- R1
     f = um.funcs.get("scaling")
